@@ -36,7 +36,7 @@ CHECKS = {
         category="model_checking",
         technique="stateless model checking of concurrent study.ask()/enqueue workers (real threads under the cooperative scheduler, preemption-bounded) after every bounded sequential prefix history",
         text="Every prefix history up to depth 2 (thorough 3) over {enqueue, ask, tell, add finished, add WAITING} leaving 1-2 queued trials is followed by 2-3 workers calling study.ask() + suggest (one may enqueue concurrently); all schedules up to the preemption bound with scheduling points at every source line of optuna/study/study.py and the storage-layer file, for workers sharing one Study or being separate journal processes (independently opened, or pickled copies with one shared main-thread ident as forked children have) (in-memory, journal, cached RDB, gRPC client) and for separate Study/JournalStorage objects over one shared journal. Checked: no trial id returned by two asks, enqueued value returned verbatim by suggest and stored, number/user attrs kept, no queued trial left WAITING or bypassed by a fresh trial when enough asks followed the last enqueue.",
-        note="Preemption bound 1 (quick); thorough: 1 for every depth-3 prefix, 2 for the prefixes of depth <= 2 on the fast configurations with the ask|ask, enq ask|ask and open ask|ask programs; SQLite statement-level double claim is not in this part; ask() raising is recorded as an observation only.",
+        note="Preemption bound 1 (quick); thorough: 1 for every depth-3 prefix, 2 for the prefixes of depth 1 on the fast configurations with the ask|ask, enq ask|ask and open ask|ask programs; SQLite statement-level double claim is not in this part; ask() raising is recorded as an observation only.",
         design="3/C04",
     ),
     "C05": dict(
